@@ -142,8 +142,10 @@ VARIANTS += [
     ("C07-rs-local-ge", "C07", RSHH, "        if day > month_offset {", "        if day >= month_offset {", "CUMSEARCH.backward"),
     ("C07-py-week-formula", "C07", ISO, "ordinal = week * 7 + weekday - (week_day(year, 1, 4) + 3)", "ordinal = week * 7 + weekday - (week_day(year, 1, 4) + 4)", "WEEKDATE.formula"),
     ("C07-rs-week-formula", "C07", RSP, "(week_day(iso_year as i32, 1, 4) as i32 + 3)", "(week_day(iso_year as i32, 1, 3) as i32 + 3)", "WEEKDATE.formula"),
-    ("C07-py-week-guard", "C07", ISO, "    if weekday > 7:", "    if weekday > 8:", "WEEKDATE.guards"),
-    ("C07-rs-week-guard", "C07", RSP, "if iso_week > 53 || iso_week > 52 && !is_long_year(iso_year as i32) {", "if iso_week > 53 {", "WEEKDATE.guards"),
+    ("C07-py-week-guard", "C07", ISO, "    if weekday < 1 or weekday > 7:", "    if weekday < 1 or weekday > 8:", "WEEKDATE.guards"),
+    ("C07-py-week-zero", "C07", ISO, "    if week < 1 or week > 53 or week > 52 and not is_long_year(year):", "    if week > 53 or week > 52 and not is_long_year(year):", "PYISO.tabulated"),
+    ("C07-rs-weekday-zero", "C07", RSP, "        if iso_day < 1 || iso_day > 7 {", "        if iso_day > 7 {", "WEEKDATE.guards"),
+    ("C07-rs-week-guard", "C07", RSP, "if iso_week < 1 || iso_week > 53 || iso_week > 52 && !is_long_year(iso_year as i32) {", "if iso_week < 1 || iso_week > 53 {", "WEEKDATE.guards"),
     ("C07-py-wrap", "C07", ISO, "        ordinal += days_in_year(year - 1)\n", "        ordinal += days_in_year(year)\n", "WEEKDATE.wrap"),
     ("C07-rs-wrap", "C07", RSP, "            ord -= days_in_year(y as i32) as i32;\n            y += 1;", "            ord -= days_in_year(y as i32) as i32;", "WEEKDATE.wrap"),
     ("C07-py-fraction-pad", "C07", ISO, 'microsecond = int(f"{subsecond:0<6}")', 'microsecond = int(f"{subsecond:0>6}")', "FRACTION"),
